@@ -647,6 +647,17 @@ func runTblCase(r *rng, family string, nr, nc int, fixed ...tblOp) (c tblCase, c
 		class := ""
 		if !plainBefore && !cellsPlainV(before) {
 			class = structuralKinds[o.Kind]
+			if o.Kind == "Unmerge" {
+				// recorded only for tables whose columns are no longer aligned (some row has a horizontal merge): the cells
+				// under a vertical-merge start are then looked for at the physical index of the start
+				for _, row := range before.Rows {
+					for _, cell := range row {
+						if cell.Span > 1 {
+							class = "q_merged_table_unmerge_misaligned"
+						}
+					}
+				}
+			}
 		}
 		add := func(clause, detail string) {
 			class := class
@@ -734,6 +745,7 @@ func runC09(cfg *runCfg) error {
 		{{Kind: "MergeV", A: []int{0, 1, 2}}, {Kind: "MergeH", A: []int{0, 0, 1}}, {Kind: "MergeH", A: []int{1, 3, 4}}, {Kind: "MergeH", A: []int{2, 3, 4}}, {Kind: "InsertColumn", A: []int{2, 1000}}},
 		{{Kind: "MergeH", A: []int{1, 0, 1}}, {Kind: "DeleteColumn", A: []int{2}}},
 		{{Kind: "MergeH", A: []int{0, 0, 1}}, {Kind: "MergeV", A: []int{0, 1, 1}}},
+		{{Kind: "MergeV", A: []int{0, 2, 2}}, {Kind: "MergeH", A: []int{0, 0, 1}}, {Kind: "Unmerge", A: []int{0, 1}}},
 	}
 	for ci := 0; ci < cfg.n+len(witnesses); ci++ {
 		var c tblCase
